@@ -438,8 +438,11 @@ fn ref_data<const L: usize>(rt: &mut RefT, v6: bool, salt: &[u8; 16], data: &[u8
 
 /// data signature, sign side
 fn sign_data<const L: usize, const EXP: bool>(v6: bool) {
+    sign_data_mode::<L, EXP>(v6, kani::any())
+}
+/// `text` concrete per instance halves the paths (the signature type is an enum: never symbolic)
+fn sign_data_mode<const L: usize, const EXP: bool>(v6: bool, text: bool) {
     let data: [u8; L] = kani::any();
-    let text: bool = kani::any();
     let pk: u8 = kani::any();
     let t: u32 = kani::any();
     let tt: u8 = kani::any();
@@ -453,7 +456,7 @@ fn sign_data<const L: usize, const EXP: bool>(v6: bool) {
     let (hashed, wire) = hashed_area::<EXP>(t, tt, c, kani::any(), kani::any());
     mk_cfg!(cfg, harr, ustore, v6, typ, pk, salt, hashed);
     let key = MockKey::<4>::new(if v6 { KeyVersion::V6 } else { KeyVersion::V4 }, kani::any(), 7);
-    kani::cover!(text && L > 0 && data[0] == b'\n', "text with bare LF");
+    kani::cover!(text && L > 0 && data[0] == b'\n', "maybe: text with bare LF");
     match okf(cfg.sign(&*key, &Password::empty(), &data[..])) {
         None => assert!(false, "C06/C11: signing a data signature failed"),
         Some(sig) => {
@@ -468,6 +471,10 @@ fn sign_data<const L: usize, const EXP: bool>(v6: bool) {
     }
 }
 sproof!(c11_sign_data_v4_2, 7, { sign_data::<2, false>(false) });
+sproof!(c11_sign_data_v4_2_bin, 7, { sign_data_mode::<2, false>(false, false) });
+sproof!(c11_sign_data_v4_2_text, 7, { sign_data_mode::<2, false>(false, true) });
+sproof!(c11_sign_data_v6_2_bin, 7, { sign_data_mode::<2, false>(true, false) });
+sproof!(c11_sign_data_v6_2_text, 7, { sign_data_mode::<2, false>(true, true) });
 sproof!(c11_sign_data_v4_2_exp, 7, { sign_data::<2, true>(false) });
 sproof!(c11_sign_data_v6_2, 7, { sign_data::<2, false>(true) });
 sproof!(c11_sign_data_v4_3, 7, { sign_data::<3, false>(false) });
